@@ -219,6 +219,10 @@ func Main(t *testing.T) {
 			}
 			f := &Found{Seed: seed, Params: params, Class: v.Class, FP: v.FP, Detail: v.Detail, Count: 1}
 			foundFP[key] = f
+			if len(foundFP) > 3 {
+				// enough minimised replays from this worker; further fingerprints are reported unminimised
+				continue
+			}
 			rep, infra := confirmAndShrink(t, p, tier, seed, params, r, v)
 			if infra != "" {
 				sum.Infra = append(sum.Infra, infra)
